@@ -138,7 +138,7 @@ fn parse_time(s: &str) -> chrono::DateTime<chrono::Local> {
 }
 fn time_to(t: anyhow::Result<chrono::DateTime<chrono::Local>>) -> Value {
     match t {
-        Ok(t) => json!([t.with_timezone(&chrono::Utc).to_rfc3339_opts(chrono::SecondsFormat::Secs, true)]),
+        Ok(t) => json!([t.with_timezone(&chrono::Utc).to_rfc3339_opts(chrono::SecondsFormat::AutoSi, true)]),
         Err(_) => json!([]),
     }
 }
